@@ -47,7 +47,7 @@ Proof.
   destruct (t_pc t) as [| | |rid|c0| |w| |w|c0|c0|c0|[c0|e]]; cbn in *; try discriminate.
   - destruct (t_ctx t); discriminate.
   - destruct (mem w (closedw s) || t_ctx t); discriminate.
-  - subst c0. reflexivity.
+  - destruct (t_dial t && t_onconn t); cbn in *; [discriminate|]. subst c0. reflexivity.
 Qed.
 
 Lemma clause1_holds : forall s, InvA s ->
